@@ -2,7 +2,7 @@
    wrap <kind f|i|g> <expected S<name>|N> <allowed L,a,b|N> <order ,a,b,..> <data> <lens> <ops>
      the wrapper's inspector collection is put in <order> (the iteration order of the Python set in
      the real run); ops: 0 next, 1 close, 9 read(-1), 10+n read(n); one record per op:
-       B<len>.<cksum> | E<Class> | N   @ <source position> | <formats> | <format> | name:complete:match,...
+       B<len>.<cksum> | E<Class> | N   @ <source position> | <formats> | <format> | name:complete:match,... | <_finished>
      preceded by the record of the fresh wrapper (without the first two fields).
    detect <data>   ->  <result>@<position>|<closed>|<formats>|<format>|...                       *)
 From Coq Require Import String.
@@ -56,7 +56,7 @@ Definition out_slot (s : cslot) : bytes :=
 Definition out_state (w : cwrapper) : bytes :=
   out_res (out_opt out_names) (formats_r w) ++ lit "|" ++
   out_res (out_opt (fun s => s_name s)) (format_r w) ++ lit "|" ++
-  join (lit ",") (map out_slot (w_slots w)).
+  join (lit ",") (map out_slot (w_slots w)) ++ lit "|" ++ out_bool (w_finished w).
 
 Inductive source := SrcF (s : fsrc) | SrcI (s : isrc).
 Definition out_pos (s : source) : bytes :=
